@@ -18,7 +18,7 @@ LEVEL = 'proof'
 
 
 def make_case(rng):
-    prog = progs.gen_program(rng, twins=False, opts={'ticks': True, 'windows': rng.chance(1, 2)})
+    prog = progs.gen_program(rng, twins=False, opts={'ticks': True, 'windows': rng.chance(1, 2), 'closures': True})
     names = [n for (_f, n, _k) in prog['funcs']]
     k = rng.below(len(names)) + 1
     reg = sorted(set(rng.sample(names, k)), key=names.index)
@@ -45,7 +45,7 @@ def make_case(rng):
     return {'prog': prog, 'steps': steps, 'mode': mode, 'registered': reg, 'time': True}
 
 
-def oracle(r0):
+def oracle(r0, recursive=None):
     """r0: result of the delta=0 run. Returns (violations, known) lists of detail dicts."""
     viol, known = [], []
     labels = r0['labels']
@@ -66,11 +66,15 @@ def oracle(r0):
             if rt != ot:
                 d = {'kind': 'time-differs', 'label': labels.get(str(lab)), 'line': line, 'reported_ticks': rt,
                      'per_invocation_ticks': ot, 'reentrant': lab in reentrant}
+                # F-C02a: the same bytecode re-entered in one thread (recursion, or closures of one factory of which the inner one is not
+                # registered and therefore not padded) shares one pending slot
                 if lab in reentrant and rt < ot:
                     known.append(d)
                 else:
                     viol.append(d)
-        if tot > r0['enabled_span']:
+        # (closures of one factory are reported under one label: when one instance calls another, the caller's inclusive line time and the
+        # callee's own lines are both in that label's sum — two functions, not one, so the per-function bound does not apply to the label)
+        if tot > r0['enabled_span'] and (labels.get(str(lab)) or [None, None, None])[2] != 'h':
             viol.append({'kind': 'not-conserved', 'label': labels.get(str(lab)), 'sum_of_line_times': tot,
                          'ticks_while_enabled': r0['enabled_span']})
     return viol, known
